@@ -1,0 +1,9 @@
+// Copyright JAMF Software, LLC
+
+//go:build !verif
+
+package fsm
+
+import sm "github.com/lni/dragonboat/v4/statemachine"
+
+func verifUpdate(uint64, uint64, []sm.Entry) {}
